@@ -3,6 +3,7 @@ import json
 import os
 import sys
 
+sys.dont_write_bytecode = True
 sys.path.insert(0, os.path.dirname(os.path.abspath(__file__)))
 from _common import scratch_project, require, emit, run_replay, tail, PY  # noqa: E402
 
